@@ -39,6 +39,17 @@ ASSUMPTIONS = [
 ]
 
 TINY = 2.0 ** -30
+# known finding (known_findings/C09.json): the annulus polygon has a zero-width bridge between its rings along y = yc, x in [xc+ri, xc+ro];
+# when y is categorical and yc is a category index, the line y = yc runs along the bridge and the segment on it is dropped
+KEY_BRIDGE = 'annulus-bridge-on-category-line'
+
+
+def on_bridge(spec, xkind, ykind, p, band):
+    """p (plotted position, Fractions) lies on the bridge of an annulus whose centre ordinate is the category line the element sits on"""
+    if spec[0] != 'ann' or not (xkind == 'num' and ykind == 'cat') or p[0] is None or p[1] is None:
+        return False
+    xc, yc, ri, ro = (fr(v) for v in spec[1:5])
+    return p[1] == yc and xc + ri - band <= p[0] <= xc + ro + band
 
 
 def round_grid(v):
@@ -280,15 +291,21 @@ class Cases:
                     orc.append(0)
                 else:
                     orc.append(truth.verdict((a, b), eps))
+        bridge = [on_bridge(spec, xkind, ykind, (a, b), eps) for a, b in zip(px, py)]
         if mask is not None:
-            bad = [i for i, (v, m) in enumerate(zip(orc, mask)) if v != 2 and bool(m) != (v == 1)]
-            if bad:
-                i = bad[0]
-                small = dict(case, x=[case['x'][i]], y=[case['y'][i]], full_x=case['x'], full_y=case['y'])
-                R.fail('oracle', small, {'why': 'element selected != plotted position inside the region (away from the boundary)',
-                                        'selected': bool(mask[i]), 'inside': orc[i] == 1, 'plotted': [None if px[i] is None else float(px[i]), None if py[i] is None else float(py[i])],
-                                        'state': type(st).__name__, 'eps': float(eps), 'n_bad': len(bad)},
-                       key=None)
+            bad_all = [i for i, (v, m) in enumerate(zip(orc, mask)) if v != 2 and bool(m) != (v == 1)]
+            # the recorded defect: an element on the annulus bridge that is inside but not selected; anything else is a new violation
+            known = [i for i in bad_all if bridge[i] and orc[i] == 1 and not mask[i]]
+            bad = [i for i in bad_all if i not in known]
+            for grp, key in ((bad, None), (known, KEY_BRIDGE)):
+                if grp:
+                    i = grp[0]
+                    small = dict(case, x=[case['x'][i]], y=[case['y'][i]], full_x=case['x'], full_y=case['y'])
+                    R.fail('oracle', small, {'why': 'element selected != plotted position inside the region (away from the boundary)',
+                                            'selected': bool(mask[i]), 'inside': orc[i] == 1,
+                                            'plotted': [None if px[i] is None else float(px[i]), None if py[i] is None else float(py[i])],
+                                            'state': type(st).__name__, 'eps': float(eps), 'n_bad': len(grp)},
+                           key=key)
         # ---- model line
         def kt(kind, cats):
             return (1, [len(cats)]) if kind == 'cat' else 0
@@ -299,14 +316,14 @@ class Cases:
             return (0, []) if v is None else (2, [q(v)])
         els = [(0, [ct(xkind, xcodes[i] if xkind == 'cat' else None, px[i]), ct(ykind, ycodes[i] if ykind == 'cat' else None, py[i])]) for i in range(len(xs))]
         line = enc((1, [q(eps), roi9_tree(spec, mixed), kt(xkind, xcats), kt(ykind, ycats), (0, els)]))
-        self.items.append((case, line, cst, mask, orc, eps, truth, spec))
+        self.items.append((case, line, cst, mask, orc, eps, truth, spec, bridge))
 
     def finish(self):
         R = self.R
         if not self.items:
             return
         outs = pmodel(R, [it[1] for it in self.items])
-        for (case, line, cst, mask, orc, eps, truth, spec), o in zip(self.items, outs):
+        for (case, line, cst, mask, orc, eps, truth, spec, bridge), o in zip(self.items, outs):
             nin = 0 if mask is None else int(mask.sum())
             R.count((self.stream, repr(case['roi']), case['xkind'], case['ykind'], tuple(case['x']), tuple(case['y'])),
                     nontrivial=mask is not None and 0 < nin < len(mask), stream=self.stream, kind=spec[0], axes=case['xkind'] + '/' + case['ykind'],
@@ -319,13 +336,14 @@ class Cases:
             mcont = [bool(t_[0]) for t_ in kids(kids(o)[2])]
             mnear = [bool(t_[0]) for t_ in kids(kids(o)[3])]
             tol = 1e-9 * float(truth.scale()) if truth is not None else 0.0
-            near = (lambda p_, t_=truth, e_=eps: t_.near(p_, e_)) if truth is not None and truth.kind != 'range' else None
+            near = (lambda p_, t_=truth, e_=eps, s_=spec, c_=case: t_.near(p_, e_) or on_bridge(s_, c_['xkind'], c_['ykind'], p_, e_)) \
+                if truth is not None and truth.kind != 'range' else None
             if not states_agree(cst, mst, tol, near):
                 R.fail('correspondence', case, {'why': 'returned subset state differs from the model', 'impl': cst, 'model': mst})
                 continue
             if mask is None:
                 continue
-            bad = [i for i, (m, s, nr) in enumerate(zip(mask, msem, mnear)) if not nr and bool(m) != s]
+            bad = [i for i, (m, s, nr) in enumerate(zip(mask, msem, mnear)) if not nr and not bridge[i] and bool(m) != s]
             # segment end points are rounded in the implementation: the model's semantics is compared off the band only
             if bad:
                 i = bad[0]
@@ -488,6 +506,9 @@ def polygon_like_spec(rng):
 
 def stream_polygon_like(R):
     C = Cases(R, 'polygon_like')
+    # fixed case of the known finding (annulus bridge on a category line): always exercised, silent once repaired
+    C.add(('ann', F(3, 4), F(3), F(1, 4), F(1, 2)), 'num', 'cat',
+          [v for _ in range(4) for v in (0.375, 1.125, 0.75, 1.5)], [b for b in ['a', 'b', 'c', 'd'] for _ in range(4)], sub=-1)
     n = R.pick(1200, 7000)
     for i in range(n):
         rng = R.subrng('pl', i)
@@ -619,6 +640,7 @@ def replay(R, case):
         C.add(spec, case['xkind'], case['ykind'], xs, ys)
         fails = [f['detail'] for f in Cl.failures if f['kind'] == 'oracle']
         out['oracle_failures'] = fails
+        out['known_finding_keys'] = sorted(set(f['key'] for f in Cl.failures if f['kind'] == 'oracle' and f.get('key')))
         out['violates'] = bool(fails)
         if R.model_available and C.items:
             o = R.model([C.items[0][1]])[0]
